@@ -79,6 +79,14 @@ func (r *replica) updateLatestOffset(offset int64) (updated bool) {
 	return
 }
 
+// resetLatestOffset sets the replica's latest log offset regardless of the
+// current offset.
+func (r *replica) resetLatestOffset(offset int64) {
+	r.mu.Lock()
+	r.offset = offset
+	r.mu.Unlock()
+}
+
 // getLatestOffset returns the replica's latest log offset.
 func (r *replica) getLatestOffset() int64 {
 	r.mu.RLock()
@@ -859,6 +867,18 @@ func (p *partition) becomeLeader(epoch uint64) error {
 		p.Isr = append(p.Isr, p.srv.config.Clustering.ServerID)
 	}
 	rep.updateLatestOffset(p.log.NewestOffset())
+
+	// Forget the offsets recorded for the replicas while this server was
+	// leader in an earlier epoch without having been restarted since. Logs,
+	// including this one, may have been truncated in the meantime, and a stale
+	// offset would commit messages a replica in the ISR does not have.
+	for id, r := range p.isr {
+		if id == p.srv.config.Clustering.ServerID {
+			r.resetLatestOffset(p.log.NewestOffset())
+		} else {
+			r.resetLatestOffset(-1)
+		}
+	}
 
 	// Start message processing loop.
 	recvChan := make(chan *nats.Msg, recvChannelSize)
